@@ -47,9 +47,9 @@ class C03(CtxCheck):
         return out
 
     def units(self, tier: str, seed: int) -> list:
-        from .c04race import adder_units
+        from .c04race import adder_units, two_type_units
 
-        return super().units(tier, seed) + adder_units(tier)
+        return super().units(tier, seed) + adder_units(tier) + two_type_units(tier)
 
     def work(self, unit: dict, tier: str) -> dict:
         if "race" in unit:
